@@ -42,12 +42,12 @@ def P(category, explanation, rule, assumptions=None, profiles=None, design_ref=N
 
 PROPS = {
     "C01": P(
-        "other",
-        "Theorems (Properties/C01.lean): for every state with >= k shards decode returns ok (no error, no panic) and exposes exactly "
-        "the missing original indexes, each of shard_bytes bytes; ROUND TRIP (roundtrip_high / roundtrip_low, when present in the theorem "
-        "list of this run): for every supported (k,r), every data, every received set of >= k distinct shards the model decoder restores the "
-        "encoded originals — by the Lin-Han-Chung argument (fft_eval, Lagrange/Cauchy, formal derivative, Walsh spec of eval_poly) in Lean with "
-        "Mathlib. All engines / shard sizes / add orders by the C03 / C04 / C11 theorems. Tie to the code: model vs implementation on "
+        "proof",
+        "Theorem `roundtrip` (Properties/C01.lean): for every flavour pair agreeing on the rate, every supported (k,r), every even shard size, "
+        "every data, every accepted set of >= k distinct shards, any engine on either side, any stale memory: encode on the model, give the "
+        "shards to the model decoder, decode returns Ok with exactly the missing originals byte for byte — proved by the Lin-Han-Chung argument "
+        "(fft = evaluation in the LCH basis, Lagrange/Cauchy generator, codeword polynomial, formal derivative G+G', decoder core F.e', Walsh-"
+        "Hadamard convolution theorem for eval_poly, table contents) in Lean 4 with Mathlib, no sorry. Plus answer shape/totality. Tie to the code: model vs implementation on "
         "generated round trips incl. all subsets of all small configurations + direct round-trip oracle on the implementation up to "
         "full-size configurations.",
         "cases = encode/decode op sequences; distinct = distinct op-sequence text; non-trivial = a decode of >= k shards with a missing original or surplus",
